@@ -370,6 +370,27 @@ def run_check(pid, tier="quick", seed=None, replay=None):
             for s in gi["shards"]:
                 shards.append((res, g, os.path.join(res["_dir"], s)))
     mism_total, mism_cases = 0, []
+    # the case files import model modules that need not be in the cone of the Props file: build them first
+    need = set()
+    for res in results:
+        heads = sorted(glob.glob(os.path.join(res["_dir"], "defs_*.v")))
+        for g, gi in res["groups"].items():
+            heads += [os.path.join(res["_dir"], x) for x in gi["shards"][:1]]
+        for hf in heads:
+            try:
+                src = strip_comments(open(hf).read(200000))
+            except OSError:
+                continue
+            for m in REQ_RE.finditer(src + "\n"):
+                for mod in m.group(1).split():
+                    need.add(os.path.join("theories", mod.strip(".").replace(".", "/") + ".vo"))
+    need = sorted(t for t in need if os.path.exists(os.path.join(COQ, t[:-1])))
+    if need:
+        with Lock("coq"):
+            coq_make(log, targets=need)
+        for t in need:
+            if not os.path.exists(os.path.join(COQ, t)):
+                problems.append(dict(layer="L2-eval", what="model module %s needed by the case files does not compile" % t))
     # shared definition files written by a harness (defs_*.v) are compiled first, in name order
     for res in results:
         for dv in sorted(glob.glob(os.path.join(res["_dir"], "defs_*.v"))):
